@@ -6,6 +6,7 @@ import scipy.optimize
 from skgstat import stmodels
 
 from .common import quiet, frs, fr, parse_nums, all_close, close
+from .common import guarded
 from . import c14
 
 INFO = dict(
@@ -18,6 +19,7 @@ INFO = dict(
 STM = sys.modules['skgstat.SpaceTimeVariogram']
 
 
+@guarded
 def check_case(ctx, case):
     rec = []
     real = scipy.optimize.curve_fit
